@@ -75,6 +75,8 @@ func checkC40(c *Ctx) string {
 	a.wireSeqs()
 	c40Mux(c)
 
+	checkPerRequestState(c, "C40.4 K4 per-request resources reach the session on every path")
+	checkTranFallback(c, "C40.5 K4c an optional transaction decides between the transaction's and the connection's operation")
 	return "Static agreement of the two ends of the client-server protocol. Decided: every constant of type commands.Command indexes a non-nil entry of dbms.cmds (read from the composite literal) and the " +
 		"start-up assertion about the table evaluates to true; for every method of IDbms/ITran/IQuery/ICursor as implemented by the mux client types, the command constant passed to PutCmd selects a handler that " +
 		"invokes or references that very interface method (types.Func identity), or calls the same package function as (*DbmsLocal).M, or is one of six frozen session-local handlers; methods that send no command are " +
